@@ -118,6 +118,8 @@ func c18Scenarios() []c18Scenario {
 		{"remember_cookie", mod("auth", "remember"), []Step{{Kind: "login", B: 0, A: 0, Sec: pwRef(0), RM: true}, {Kind: "drop_session", B: 0}}, probe(0, "/probe/open")},
 		{"remember_cookie_login", mod("auth", "remember"), []Step{{Kind: "login", B: 0, A: 0, Sec: pwRef(0), RM: true}, {Kind: "drop_session", B: 0}}, login(0, 0)},
 		{"mw_fullauth", mod("auth"), []Step{login(0, 0)}, probe(0, "/probe/mw/1/1/0/x")},
+		{"mw_none", mod("auth"), []Step{login(0, 0)}, probe(0, "/probe/mw/0/0/0/x")},
+		{"mw_2fa_mounted", both(mod("auth"), set("totp")), totpLogin, probe(0, "/probe/mw/2/2/1/x")},
 		{"mw_lock", mod("auth", "lock"), []Step{login(0, 0)}, probe(0, "/probe/lock")},
 		{"mw_confirm", mod("auth", "confirm"), []Step{login(0, 0)}, probe(0, "/probe/confirm")},
 		{"expire_request", func(c *Config) { c.ensureModules("auth"); c.ensureSetups("expire"); c.dropModules("remember") }, []Step{login(0, 0)}, probe(0, "/probe/open")},
@@ -274,6 +276,16 @@ func c18Judge(w *World, sc string, base, f c18Side) []Violation {
 	if o.Panic != "" {
 		out = append(out, viol("C18", "panic", sc, o, fmt.Sprintf("fault %s at %s: the handler chain panicked: %s", kind, site, clip(o.Panic, 200)), "fault", site+":"+kind))
 		return out
+	}
+	// R1': a route guard that could not load its user answers with an error;
+	// the wrapped handler is not served as if nothing had happened
+	if strings.HasPrefix(sc, "mw_") && strings.HasPrefix(site, "db.") && kind == "err" && o.Step.Kind == "probe" {
+		if o.Probe != nil && o.Probe.Ran {
+			out = append(out, viol("C18", "guard_served_handler_on_storage_error", sc, o,
+				fmt.Sprintf("fault %s at %s: the guarded handler of %s was served (status %d) although the guard's storage call failed", kind, site, o.Target, o.Status), "fault", site+":"+kind))
+		} else {
+			w.Stats.Reach["c18_guard_refused_on_storage_error"]++
+		}
 	}
 	// R2: a change the fault-free twin made is missing -> the response must
 	// not be the twin's success response, and must be an error outcome
@@ -454,6 +466,11 @@ func c18Run(t *testing.T, seed uint64, tier string) *RunResult {
 	r := NewRng(seed)
 	scs := c18Scenarios()
 	sc := scs[int(seed%uint64(len(scs)))]
+	if curRunIndex >= 0 {
+		// a batch walks the scenario table in order: every scenario is
+		// enumerated, whatever the seed
+		sc = scs[curRunIndex%len(scs)]
+	}
 	cfg := c18Config(r.Fork(1), &sc)
 	ex, _ := json.Marshal(c18Extra{Scenario: sc.Name})
 	plan := Plan{Prop: "C18", Seed: seed, Tier: tier, Mode: "c18", Cfg: cfg, Extra: ex}
@@ -536,6 +553,6 @@ func init() {
 	for _, s := range c18Scenarios() {
 		req = append(req, "c18_scenario_"+s.Name)
 	}
-	req = append(req, "c18_error_outcome", "c18_faulted_executions")
+	req = append(req, "c18_error_outcome", "c18_faulted_executions", "c18_guard_refused_on_storage_error")
 	register(&Profile{ID: "C18", Run: c18Run, Replay: c18Exec, RequiredReach: req})
 }
